@@ -241,7 +241,7 @@ def check(ctx):
     lines = [core.req('split', c) for c in cases]
     mlines = [core.req('split', {k: v for k, v in c.items() if k != 'delays'}) for c in cases]
     model = core.run_lines(core.model_exe(), mlines, shards=8)
-    impl = core.run_lines(core.harness_exe(ctx), lines, shards=16)
+    impl = core.run_lines(core.harness_exe(ctx), lines, shards=16, timeout=180 if ctx.tier == 'quick' else 1200)
     # A consumer with a budget stops listening after its last receive, so it cannot observe
     # `close` events (not sends) that follow it: compare without trailing closes in that case.
     def strip(case, out):
@@ -255,7 +255,7 @@ def check(ctx):
     impl = [strip(c, i) for c, i in zip(cases, impl)]
     st = core.judge(ctx, cases, model, impl, oracle, label='split')
     rl = [core.req('streamread', c) for c in rcases]
-    st2 = core.judge(ctx, rcases, core.run_lines(core.model_exe(), rl), core.run_lines(core.harness_exe(ctx), rl),
+    st2 = core.judge(ctx, rcases, core.run_lines(core.model_exe(), rl), core.run_lines(core.harness_exe(ctx), rl, timeout=180 if ctx.tier == 'quick' else 1200),
                      reader_oracle, label='streamread') if rcases else {'cases': 0, 'disagreements': 0}
     distinct = {core.canon({k: v for k, v in c.items() if k != 'delays'}) for c in cases
                 if len(c['msgs']) >= 2 and c['max'] is not None}
